@@ -324,7 +324,13 @@ class World:
                 K = n.lib().klass_pinned(cls, n.lparams(step["pinned"]))
         except Exception as ex:
             return self.log(step, "exc:params:" + type(ex).__name__)
-        r = self._call(n, "from_serialized", lambda: K.from_serialized(n.slot, params=P))
+        blob_arg = n.slot
+        if step.get("blob_as") == "bytearray":
+            blob_arg = bytearray(n.slot)       # read into a reusable buffer (readinto / recv_into / a driver's row buffer)
+        r = self._call(n, "from_serialized", lambda: K.from_serialized(blob_arg, params=P))
+        if step.get("scrub") and isinstance(blob_arg, bytearray):
+            for i in range(len(blob_arg)):     # ... which the application wipes or reuses afterwards
+                blob_arg[i] = 0x2a
         if r[0] == "exc":
             return self.log(step, "exc:" + r[1])
         n.impl = "real"
@@ -513,6 +519,26 @@ class World:
         ctx = faults.Ctx(g, mp, dst.out if dst is not None else None, [m.out for m in self.nodes])
         wire, _ = faults.apply(body, base, ctx)
         return wire if kind == "strip_side" else wire[1:]
+
+    def op_aux(self, step):
+        """the application calls another public helper of the library in the same process
+        (outcome irrelevant; later strict decoding must be unaffected)"""
+        pset = step.get("pset", 0)
+        gk = self.psets[pset]["group"]["kind"]
+        b = self.resolve_body(step["body"], pset)
+        lib = self.host_lib(step.get("host", 0))
+        G = worlds.lib_params(self.psets[pset], lib).group
+        mod = getattr(G, "_toy_module", None) or (lib.edb if gk == "ed25519" else None)
+        fn = getattr(mod, step.get("fn", "bytes_to_unknown_group_element"), None) if mod is not None else None
+        if fn is None:
+            self.skipped += 1
+            return self.log(step, "skip")
+        try:
+            fn(b)
+            out = "ok"
+        except Exception as ex:
+            out = "exc:" + type(ex).__name__
+        return self.log(step, out, dg(b))
 
     def op_decode(self, step):
         """offer a byte string directly to params.group.bytes_to_element"""
